@@ -9,6 +9,11 @@ case (scheduled) = {"wants": [k_0..k_{n-1}], "sched": ["R" | "u" | t ...], "rais
       t   = producer thread t takes its next atomic step (append, or wakeUp)
       optional "kw": [[t, n, name] ...]  call n of thread t is issued with an extra keyword argument called `name`
       ("delay", "callable": callFromThread(f, *a, **kw) promises f(*a, **kw) whatever the keywords are called);
+      optional "sig": [[t, n, "sigTerm"|"sigInt"] ...]  that call invokes the reactor's own signal handler method
+      synchronously (what Python does when the signal arrives while the call is executing: handlers run in the
+      main = reactor thread between bytecodes); reactor.stop is replaced by a recorder: every such call must be
+      followed by exactly one stop, and every thread call must still run exactly once (cases with "sig" are checked by
+      the oracle only: the LTS has no calls queued by the reactor thread);
       optional "cancels": [[t, n] ...]   that call cancels every pending timer (reactor.getDelayedCalls()), which
       must not touch calls issued through callFromThread
 case (stress)    = {"stress": "select"|"poll"|"epoll"|"asyncio", "threads": n, "calls": m, "seed": s}
@@ -154,6 +159,11 @@ def _get_reactor():
 def _make_queue(sched, state):
     class TracedList(list):
         def append(self, item):
+            if sched.me() == "R":
+                # queued by the reactor thread itself (a signal handler asking for stop): part of the running segment
+                sched.seg.append("+q")
+                list.append(self, item)
+                return
             sched.point("append")
             f, args, kw = item
             sched.seg.append(f"a{args[0]}.{args[1]}")
@@ -182,6 +192,8 @@ def _impl_sched(case) -> str:
     raises = {tuple(x) for x in case.get("raises", [])}
     kwnames = {(t, n): name for t, n, name in case.get("kw", [])}
     cancels = {tuple(x) for x in case.get("cancels", [])}
+    sigs = {(t, n): name for t, n, name in case.get("sig", [])}
+    stops = []
     _quiet_log()
     del _logged[:]
     r = _get_reactor()
@@ -198,6 +210,13 @@ def _impl_sched(case) -> str:
 
     timer = r.callLater(3600, lambda: None)     # an application timer for the cancelling calls to find
 
+    def fake_stop():
+        sched.point("x")
+        sched.seg.append("xS")
+        stops.append(threading.get_ident())
+
+    r.stop = fake_stop                          # the signal handlers ask for self.stop through the thread-call queue
+
     def fn(t, n, **kw):
         sched.point("x")
         sched.seg.append(f"x{t}.{n}")
@@ -209,6 +228,9 @@ def _impl_sched(case) -> str:
         if (t, n) in cancels:
             for dc in r.getDelayedCalls():
                 dc.cancel()
+        if (t, n) in sigs:
+            import signal as _signal
+            getattr(r, sigs[(t, n)])(_signal.SIGTERM if sigs[(t, n)] == "sigTerm" else _signal.SIGINT, None)
         if (t, n) in raises:
             raise ThreadCallBoom(f"{t}.{n}")
 
@@ -319,6 +341,8 @@ def _impl_sched(case) -> str:
         stop.set()
         r.waker.sched = None
         r.threadCallQueue = []
+        r.__dict__.pop("stop", None)
+        r._exitSignal = None
         for dc in r.getDelayedCalls():
             dc.cancel()
         r.runUntilCurrent()         # drop the cancelled timers
@@ -335,6 +359,8 @@ def _impl_sched(case) -> str:
         final = "ran-%d-of-%d" % (len(got), len(want))
     elif any(i != rt.ident for _, _, i in executed):
         final = "wrong-thread"
+    elif len(stops) != len([1 for t, n in sigs if t < len(wants) and n < wants[t]]):
+        final = "stop-requests-%d-of-%d" % (len(stops), len([1 for t, n in sigs if t < len(wants) and n < wants[t]]))
     elif sorted(str(e["log_failure"].value) for e in _logged if "log_failure" in e) != sorted(
             f"{t}.{n}" for t, n in raises if n < wants[t] if t < len(wants)):
         final = "raising-call-not-logged-once"
@@ -493,18 +519,37 @@ def _impl_stress(case) -> str:
     return "stress no-result:" + (r.stderr.strip().splitlines() or ["?"])[-1][:80].replace('"', "'")
 
 
+_SLOW = {"n": 0}
+MAX_SLOW = 3      # after this many cases that failed by waiting out a timeout, further real-thread cases are skipped
+
+
 def impl(case) -> str:
-    if "stress2" in case:
-        return _impl_stress2(case)
-    if "stress" in case:
-        return _impl_stress(case)
-    return _impl_sched(case)
+    if _SLOW["n"] >= MAX_SLOW:
+        return "skipped-after-%d-timeouts" % _SLOW["n"]
+    import time
+    t0 = time.time()
+    try:
+        if "stress2" in case:
+            o = _impl_stress2(case)
+        elif "stress" in case:
+            o = _impl_stress(case)
+        else:
+            o = _impl_sched(case)
+    except _Stuck:
+        _SLOW["n"] += 1
+        raise
+    slow = any(x in o for x in ("threads-alive", "STALL", "_Stuck", "never-ran", "no-result", "latency"))
+    if slow and time.time() - t0 > 1.5:
+        _SLOW["n"] += 1
+    return o
 
 
 # --------------------------------------------------------------------------------------------------------
 
 
 def oracle(case, obs):
+    if obs.startswith("skipped-after-"):
+        return None         # the run already has its failures; this case was not executed
     if "stress2" in case:
         if obs != "stress ok":
             return Failure(case, f"{case['stress2']} reactor idle in a secondary thread, {case['calls']} calls handed "
@@ -525,7 +570,10 @@ def oracle(case, obs):
     napp = {}
     for i, st in enumerate(steps):
         ev, _, flags = st.partition("|")
+        ev = ev.replace("+q", "").replace("+W", "") if case.get("sig") else ev
         where = f"step {i} ({case['sched'][i]} -> {ev}): "
+        if ev == "xS":
+            continue
         if ev.startswith("a"):
             t, n = map(int, ev[1:].rstrip("!").split("."))
             if n != napp.get(t, 0):
@@ -603,6 +651,9 @@ def gen(rng, tier):
         if rng.random() < 0.3:
             case["kw"] = [[t, k, rng.choice(["delay", "callable", "delay"])] for t in range(n)
                           for k in range(wants[t]) if rng.random() < 0.3]
+        if rng.random() < 0.2 and sum(wants):
+            case["sig"] = [[t, k, rng.choice(["sigTerm", "sigInt"])] for t in range(n)
+                           for k in range(wants[t]) if rng.random() < 0.25][:2]
         if rng.random() < 0.3:
             case["cancels"] = [[t, k] for t in range(n) for k in range(wants[t]) if rng.random() < 0.3]
         if rng.random() < 0.5:
@@ -630,6 +681,9 @@ def corpus():
         {"wants": [3], "sched": [0, 0, "R", "R", 0, "R", 0, "R", "R", "R", "R", "R", "R", "R", "R", "R", "R", "R", "R"]},
         # spurious poll return
         {"wants": [1, 1], "sched": ["R", "R", "u", "R", 0, 1, "R", "R", "R", 1, 0, "R", "R", "R", "R", "R", "R"]},
+        # SIGTERM arrives while the first of three queued calls is executing (the handler runs inside it)
+        {"wants": [3], "sched": [0, 0, 0, 0, 0, 0] + ["R"] * 18, "sig": [[0, 0, "sigTerm"]]},
+        {"wants": [2, 1], "sched": [0, 0, 1, 1, 0, 0] + ["R"] * 18, "sig": [[0, 1, "sigInt"]]},
         # a call issued with a keyword argument called `delay`, between two ordinary ones
         {"wants": [3], "sched": [0, 0, 0, 0, 0, 0] + ["R"] * 14, "kw": [[0, 1, "delay"]]},
         # a house-keeping call that cancels every pending timer, queued together with two ordinary calls
@@ -642,7 +696,7 @@ def corpus():
 
 
 def to_coq(case):
-    if "stress" in case or "stress2" in case:
+    if "stress" in case or "stress2" in case or case.get("sig"):
         return None
     lab = lambda x: "Reactor" if x == "R" else "Spurious" if x == "u" else f"Prod {x}"
     return f"({coq_list([coq_nat(k) for k in case['wants']], 'nat')}, {coq_list([lab(x) for x in case['sched']], 'label')})"
@@ -670,7 +724,7 @@ SPEC = Spec(
     coq_header="From C13 Require Import Model Run.",
     coq_fn="run_show",
     to_coq=to_coq,
-    model_equal=lambda c, a, b: a.partition(" #")[0].replace("!", "") == b,
+    model_equal=lambda c, a, b: a.startswith("skipped-after-") or a.partition(" #")[0].replace("!", "") == b,
     nontrivial=lambda c, o: "x" in o or o == "stress ok",
     histogram=lambda c, o: ("stress " + c["stress"]) if "stress" in c else ("two reactors " + c["stress2"])
     if "stress2" in c else f"{len(c['wants'])} producer(s)",
